@@ -12,6 +12,8 @@ CONSTANTS
  DevF13 = FALSE
  DevVerKey = FALSE
  DevDangEnd = FALSE
+ DevNoAtomResname = FALSE
+ DevOrderedPairs = FALSE
  DevDegree = FALSE
 INVARIANT Judge
 POSTCONDITION Accepted
